@@ -285,6 +285,8 @@ class gen_wilson:
         "C01.spanning.count": "count(result) == R * C - 1",
         "C01.spanning.connected": "forall(lambda i, j: reach(result, final(g_root), (i, j)), (0, R), (0, C))",
         "C12.flag": "result.generation_meta['fully_connected'] == True",
+        # ... and the flag is true: every cell is reachable from every other
+        "C12.flag-means-connected": "forall(lambda i, j, a, b: reach(result, (i, j), (a, b)), (0, R), (0, C), (0, R), (0, C))",
     }
     loops = {
         0: Loop(
@@ -333,7 +335,7 @@ class gen_wilson:
             ],
         ),
     }
-    exit_lemmas = ["count_lemma(final(visited), R, C)"]
+    exit_lemmas = ["count_lemma(final(visited), R, C)", "reach_common(result, final(g_root))"]
     result = T.RecT(
         "LatticeMaze",
         connection_list=T.GridT("bool", [2, None, None], count=True),
